@@ -19,6 +19,10 @@ class Unsupported(Exception):
     """The executed code left the fragment the symbolic engine can represent (=> inconclusive)."""
 
 
+class UnsupportedAttr(Unsupported, AttributeError):
+    """an attribute / method of torch.Tensor that the shim does not model (hasattr() still answers False)"""
+
+
 class AtomTable:
     def __init__(self):
         self.reset()
